@@ -505,6 +505,9 @@ pub fn check(prop_id: &str, tier: &str, verif_seed: u64) -> i32 {
                 println!("KNOWN-FINDING: property={} {} [{}]", prop_id, f.what_fails, f.id);
                 findings_reproduced.push(f.id.clone());
             } else {
+                // not an alarm and not a known finding either: the list needs attention (the finding
+                // was repaired on the way, or its reproducer has gone stale)
+                println!("NOTE: listed open finding {} of {} did not reproduce (recorded {}, now {}): no KNOWN-FINDING line for it", f.id, prop_id, f.oracle, out.class());
                 findings_not_reproduced.push(format!("{} (now: {})", f.id, out.class()));
             }
         } else {
